@@ -51,6 +51,14 @@ def gen_cfg(rnd, opts=None):
             cfg["wide_table"] = True
         for n in names:
             cfg["services"][n] = rnd.choice(SVC_TYPES)
+        if cfg.get("wide_table") and rnd.random() < 0.5:
+            # the entries at both ends of the table differ in kind: the first ones want a password, the ones past
+            # the 32nd do not (so a client is often asked by the latter and not by the former)
+            order = sorted(names, key=lambda n: n.lower())
+            for n in order[:4]:
+                cfg["services"][n] = rnd.choice(["login", "login-ipr"])
+            for n in order[32:]:
+                cfg["services"][n] = rnd.choice(["dronecheck", "combined"])
         if rnd.random() < 0.15 and not cfg.get("wide_table"):
             cfg["services"]["proxy.example.org"] = rnd.choice(["proxycheck", "LOGINX", "none"])
     if modules == "class":
@@ -1018,7 +1026,11 @@ class Exec:
             lines += rep.lines()
             for n in rep.notes:
                 if n.startswith("STALL"):
-                    self.res.infra = "host stall: " + n
+                    # the event loop was run a hundred thousand times with input readable on the server channel
+                    # and no read fault outstanding, and the daemon did not read it: it has stopped listening
+                    self.w.v(("C08", "C10", "C03"), "input-not-read", "input is readable on the server channel but the daemon "
+                             "no longer reads it, however often its event loop runs (%s)" % n)
+                    self.stalled = True
             prev = cp
         return lines
 
@@ -1075,6 +1087,8 @@ class Exec:
                 "services": sorted(w.cfg["services"]),
                 "waiting": sorted(i.cid for i in w.live.values() if any(i.awaiting.values()))})
         self.res.steps += 1
+        if getattr(self, "stalled", False):
+            return False
         if getattr(self, "stop_quietly", False) and not self.h.dead:
             # an accidentally valid damaged file is now in force; the protocol
             # model cannot follow arbitrary files: end the run here (cleanly, unless
